@@ -108,7 +108,7 @@ def disjoint(rng, n):
 def gen_cases(ck):
     rng = ck.rng
     cases = []   # (family, n, kp, kq, kr)
-    per = 14 if ck.tier == "quick" else 60
+    per = 14 if ck.tier == "quick" else 150
     for n in range(1, 11):
         for _ in range(per):
             p, q, r = (gen_vec(rng, n, rng.choice(KINDS)) for _ in range(3))
@@ -231,6 +231,8 @@ def main(argv):
         ck.notes.append("simulations_utility imported from %s, not from %s" % (srcfile, SRC))
 
     if ck.replay:
+        import shutil
+        shutil.rmtree(ck.scratch, ignore_errors=True)
         doc = json.load(open(ck.replay))["replay"]
         if "kp" in doc:
             why = oracle_triple(fn, np, doc["n"], doc["kp"], doc["kq"], doc["kr"])
